@@ -155,11 +155,21 @@ Ltac absurd_head :=
          | H : _ /\ _ |- _ => destruct H
          | H : _ \/ _ |- _ => destruct H
          end; subst; try congruence;
+  try (match goal with H : ~ In _ (_ :: _) |- _ => apply H; cbn; tauto end);
+  try (match goal with H : ?c = ?c -> _ = Normal |- _ => specialize (H eq_refl); discriminate H end);
+  try (match goal with G : (_ && _) = false |- _ => cbn in G; discriminate G end);
   try (match goal with A : isAlpha ?c = true, D : isDigit ?c = true |- _ => exact (alpha_not_digit c A D) end);
   repeat match goal with
          | H : isAlpha _ = _ |- _ => vm_compute in H
          | H : isDigit _ = _ |- _ => vm_compute in H
          end; try congruence; try discriminate.
+
+Ltac punct_solve :=
+  repeat match goal with
+         | H : _ /\ _ |- _ => destruct H
+         | H : _ \/ _ |- _ => destruct H
+         end; subst;
+  try (match goal with H : ?a = ?b |- _ => discriminate H end); auto.
 
 Lemma maximal_single c tail : isAlpha c = false -> isDigit c = false -> (c = 46 -> forall t', tail <> 46 :: 46 :: t') ->
   maximal [c] tail.
@@ -168,8 +178,348 @@ Proof.
   split; [intros [_ F]; inv F; congruence|]. intros E. inv E. auto.
 Qed.
 
+Lemma maximal_nodot c l tail : isAlpha c = false -> isDigit c = false -> c <> 46 -> maximal (c :: l) tail.
+Proof.
+  intros A D NE. split; [discriminate|]. split; [intros c' r E; inv E; congruence|]. split; [intros c' r E; inv E; congruence|].
+  split; [intros [_ F]; inv F; congruence|]. intros E. inv E. congruence.
+Qed.
+
 Lemma maximal_other c l tail : isAlpha c = false -> isDigit c = false -> l <> [] -> maximal (c :: l) tail.
 Proof.
   intros A D NE. split; [discriminate|]. split; [intros c' r E; inv E; congruence|]. split; [intros c' r E; inv E; congruence|].
   split; [intros [_ F]; inv F; congruence|]. intros E. inv E. congruence.
 Qed.
+
+Definition only_token (m : mode) (c : N) (r : list N) (t : N) (mid : list N) : Prop :=
+  forall ty' l' tail, c :: r = l' ++ tail -> l' <> [] -> class_ok m (tail = []) ty' l' -> maximal l' tail ->
+    ty' = t /\ l' = c :: mid.
+
+Lemma dispatch_complete m F s0 c r t s2 : rest s0 = c :: r -> ~ blank c ->
+  dispatch m F s0 c (adv s0) = Some (t, s2) ->
+  exists mid, Cons (adv s0) s2 mid /\ maximal (c :: mid) (rest s2) /\ only_token m c r t mid.
+Proof.
+  intros R NB H. destruct (adv_fields _ _ _ R) as (R1 & _). subst r.
+  pose proof (adv_Cons _ _ _ R) as C0.
+  assert (Start : forall ty' l' tail (Q : Prop), c :: rest (adv s0) = l' ++ tail -> l' <> [] -> class_ok m (tail = []) ty' l' ->
+            (forall l'', l' = c :: l'' -> rest (adv s0) = l'' ++ tail -> head_case m (tail = []) ty' c l'' -> Q) -> Q).
+  { intros ty' l' tail Q E NE K Cont. destruct l' as [|c' l'']; [congruence|]. cbn in E. injection E as <- Er.
+    apply (Cont l''); auto. apply class_ok_head; auto. }
+  unfold dispatch in H.
+  destruct (isAlpha c) eqn:A.
+  { destruct (identifier_spec _ _ _ _ _ H) as (T & mid & [C _] & AN).
+    unfold identifier in H. destruct (while_peek isAlphaNumeric F (adv s0)) as [s1|] eqn:W; [|discriminate H]. inv H.
+    destruct (while_peek_spec _ _ _ _ isAlphaNumeric_not10 W) as (_ & _ & _ & X). rewrite sat_peek in X.
+    assert (L : literal s0 s2 = c :: mid) by (apply literal_mid; apply (Cons_trans _ _ _ _ _ C0 C)). rewrite L.
+    exists mid. split; auto. split.
+    - split; [discriminate|]. split; [intros c' r' E _; auto|]. split; [intros c' r' E Dg; inv E; exfalso; eapply alpha_not_digit; eauto|].
+      split; [intros [_ Fd]; inv Fd; exfalso; eapply alpha_not_digit; eauto|]. intros E. inv E. vm_compute in A. discriminate A.
+    - intros ty' l' tail E NE K M. apply (Start ty' l' tail _ E NE K). intros l'' -> Er HC.
+      destruct HC; try solve [absurd_head].
+      destruct M as (_ & M2 & _). specialize (M2 c l'' eq_refl A).
+      destruct C as [Rm _]. rewrite Er in Rm.
+      destruct (span_unique isAlphaNumeric l'' mid tail (rest s2)) as [-> _]; auto.
+      split; auto. subst ty'.
+      destruct (identifierType_cases (c :: mid)) as [[E1 K1]|(v & K1 & E1 & _)]; rewrite E1, K1; auto. }
+  destruct (isDigit c) eqn:D.
+  { destruct (number_strong _ _ _ _ H) as (mid & C & X & Kd). exists mid. split; auto.
+    destruct C as [Rm Cm].
+    assert (Mx : maximal (c :: mid) (rest s2)).
+    { split; [discriminate|]. split; [intros c' r' E Al; inv E; congruence|]. split; [intros; auto|].
+      split; [|intros E; inv E; vm_compute in D; discriminate D].
+      intros [_ Fd] d t' Rt. destruct Kd as [(_ & _ & N44)|(_ & a & b & -> & _ & _)]; [eauto|].
+      exfalso. rewrite Forall_forall in Fd.
+      assert (X44 : isDigit 44 = true) by (apply Fd; right; apply in_or_app; cbn; auto). vm_compute in X44. discriminate X44. }
+    split; auto.
+    intros ty' l' tail E NE K M. apply (Start ty' l' tail _ E NE K). intros l'' -> Er HC.
+    destruct M as (_ & _ & M3 & M4 & _). specialize (M3 c l'' eq_refl D).
+    destruct HC as [ | Dc Ty Fd | a' b' Dc Ty El Fa [Nb Fb] | | | | | | | | ]; try solve [absurd_head].
+    - (* hypothesis: INT *)
+      assert (Dg : digits (c :: l'')) by (split; [discriminate|constructor; auto]). specialize (M4 Dg).
+      destruct Kd as [(T & Fm & N44)|(T & a & b & -> & Fa & [Nb Fb])].
+      + destruct (span_unique isDigit l'' mid tail (rest s2)) as [-> _]; auto; [congruence|]. subst. auto.
+      + exfalso. rewrite Er in Rm. rewrite <- app_assoc in Rm.
+        destruct (span_unique isDigit l'' a tail ((44 :: b) ++ rest s2)) as [-> Et]; auto.
+        destruct b as [|d b]; [congruence|]. inv Fb.
+        assert (isDigit d = false); [|congruence].
+        apply (M4 d (b ++ rest s2)). reflexivity.
+    - (* hypothesis: FLOAT *)
+      subst l''. destruct Kd as [(T & Fm & N44)|(T & a & b & -> & Fa2 & [Nb2 Fb2])].
+      + exfalso. rewrite Er in Rm. rewrite <- app_assoc in Rm.
+        destruct (span_unique isDigit a' mid ((44 :: b') ++ tail) (rest s2)) as [-> Et]; auto.
+        destruct b' as [|d b']; [congruence|]. inv Fb.
+        assert (isDigit d = false); [|congruence]. apply (N44 d (b' ++ tail)). rewrite <- Et. reflexivity.
+      + rewrite Er in Rm. rewrite <- !app_assoc in Rm.
+        destruct (span_unique isDigit a' a ((44 :: b') ++ tail) ((44 :: b) ++ rest s2)) as [-> Et]; auto.
+        cbn in Et. injection Et as Et.
+        destruct (span_unique isDigit b' b tail (rest s2)) as [-> _]; auto. subst. auto. }
+  destruct (c =? 45) eqn:E45.
+  { inv H. apply N.eqb_eq in E45. subst c. exists []. split; [apply Cons_refl|]. split; [apply maximal_single; auto; discriminate|].
+    intros ty' l' tail E NE K M. apply (Start ty' l' tail _ E NE K). intros l'' -> Er HC.
+    destruct HC; try solve [absurd_head]. punct_solve. }
+  destruct (c =? 46) eqn:E46.
+  { apply N.eqb_eq in E46. subst c.
+    destruct (is (peek (adv s0)) 46 && is (peekNext (adv s0)) 46) eqn:G; inv H.
+    - apply andb_true_iff in G. destruct G as [G1 G2]. apply is_some in G1. apply is_some in G2.
+      destruct (peek_rest _ _ G1) as [r1 Ra]. unfold peekNext in G2. rewrite Ra in G2.
+      destruct r1 as [|d r']; [cbn in G2; discriminate G2|]. inv G2.
+      destruct (adv_fields _ _ _ Ra) as (Rb & _).
+      exists ([46] ++ [46]). split; [eapply Cons_trans; eapply adv_Cons; eauto|]. split; [apply maximal_other; auto; discriminate|].
+      intros ty' l' tail E NE K M. apply (Start ty' l' tail _ E NE K). intros l'' -> Er HC.
+      destruct HC; try solve [absurd_head].
+      + subst. auto.
+      + subst l''. exfalso. destruct M as (_ & _ & _ & _ & M5). cbn in Er. rewrite Ra in Er. apply (M5 eq_refl r'). auto.
+    - assert (NG : forall t', rest (adv s0) <> 46 :: 46 :: t').
+      { intros t' Rt. unfold peek, peekNext in G. rewrite Rt in G. cbn in G. discriminate G. }
+      exists []. split; [apply Cons_refl|]. split; [apply maximal_single; auto|].
+      intros ty' l' tail E NE K M. apply (Start ty' l' tail _ E NE K). intros l'' -> Er HC.
+      destruct HC; try solve [absurd_head].
+      + subst l''. exfalso. apply (NG tail). exact Er.
+      + punct_solve. }
+  destruct (c =? 44) eqn:E44.
+  { inv H. apply N.eqb_eq in E44. subst c. exists []. split; [apply Cons_refl|]. split; [apply maximal_single; auto; discriminate|].
+    intros ty' l' tail E NE K M. apply (Start ty' l' tail _ E NE K). intros l'' -> Er HC.
+    destruct HC; try solve [absurd_head]. punct_solve. }
+  destruct (c =? 58) eqn:E58.
+  { inv H. apply N.eqb_eq in E58. subst c. exists []. split; [apply Cons_refl|]. split; [apply maximal_single; auto; discriminate|].
+    intros ty' l' tail E NE K M. apply (Start ty' l' tail _ E NE K). intros l'' -> Er HC.
+    destruct HC; try solve [absurd_head]. punct_solve. }
+  destruct (c =? 40) eqn:E40.
+  { inv H. apply N.eqb_eq in E40. subst c. exists []. split; [apply Cons_refl|]. split; [apply maximal_single; auto; discriminate|].
+    intros ty' l' tail E NE K M. apply (Start ty' l' tail _ E NE K). intros l'' -> Er HC.
+    destruct HC; try solve [absurd_head]. punct_solve. }
+  destruct (c =? 41) eqn:E41.
+  { inv H. apply N.eqb_eq in E41. subst c. exists []. split; [apply Cons_refl|]. split; [apply maximal_single; auto; discriminate|].
+    intros ty' l' tail E NE K M. apply (Start ty' l' tail _ E NE K). intros l'' -> Er HC.
+    destruct HC; try solve [absurd_head]. punct_solve. }
+  assert (Quoted : forall q okty, (q = 34 /\ okty = tt_STRING) \/ (q = 39 /\ okty = tt_CHAR) -> c = q ->
+            quoted q okty F (adv s0) = Some (t, s2) ->
+            exists mid, Cons (adv s0) s2 mid /\ maximal (c :: mid) (rest s2) /\ only_token m c (rest (adv s0)) t mid).
+  { intros q okty Hq -> HQ.
+    assert (Q10 : q <> 10) by (destruct Hq as [[-> _]|[-> _]]; discriminate).
+    assert (Q92 : q <> 92) by (destruct Hq as [[-> _]|[-> _]]; discriminate).
+    assert (Q46 : q <> 46) by (destruct Hq as [[-> _]|[-> _]]; discriminate).
+    destruct (quoted_spec _ _ _ _ _ _ Q10 Q92 HQ) as (mid & [[Rm Cm] _] & Kq).
+    exists mid. split; [split; auto|]. split; [apply maximal_nodot; auto|].
+    intros ty' l' tail E NE K M. apply (Start ty' l' tail _ E NE K). intros l'' -> Er HC. rewrite Er in Rm.
+    destruct HC as [ | | | b' Hty El Qb | Hc Hty Qo Ht | | | | | | ];
+      try solve [absurd_head]; try solve [destruct Hq as [[-> _]|[-> _]]; absurd_head].
+    - assert (ty' = okty) by (destruct Hq as [[-> ->]|[-> ->]]; destruct Hty as [[X Y]|[X Y]]; try discriminate X; auto).
+      subst l''. destruct Kq as [(T & b & -> & Qb2)|(T & Rs & Qo)].
+      + rewrite <- !app_assoc in Rm. cbn in Rm. rewrite (qbody_unique q Q92 b' Qb b _ _ Qb2 Rm). subst. auto.
+      + exfalso. rewrite Rs, app_nil_r, <- app_assoc in Rm. cbn in Rm. rewrite <- Rm in Qo. eapply qbody_not_qopen; eauto.
+    - subst tail. rewrite app_nil_r in Rm. destruct Kq as [(T & b & -> & Qb2)|(T & Rs & Qo2)].
+      + exfalso. rewrite <- app_assoc in Rm. cbn in Rm. rewrite Rm in Qo. eapply qbody_not_qopen; eauto.
+      + rewrite Rs, app_nil_r in Rm. subst. auto. }
+  destruct (c =? 34) eqn:E34.
+  { apply N.eqb_eq in E34. apply (Quoted 34 tt_STRING); auto. }
+  destruct (c =? 39) eqn:E39.
+  { apply N.eqb_eq in E39. apply (Quoted 39 tt_CHAR); auto. }
+  clear Quoted.
+  destruct (c =? 91) eqn:E91.
+  { apply N.eqb_eq in E91. subst c. apply comment_spec in H. destruct H as (T & mid & d & [[Rm Cm] _] & Dd & X).
+    exists mid. split; [split; auto|]. split; [apply maximal_nodot; auto; discriminate|].
+    intros ty' l' tail E NE K M. apply (Start ty' l' tail _ E NE K). intros l'' -> Er HC. rewrite Er in Rm.
+    destruct HC as [ | | | | | d' Hc Hty Dd' X' | | | | | ]; try solve [absurd_head].
+    rewrite (comment_unique (tail = []) (rest s2 = []) l'' mid tail (rest s2) d' d); auto. subst. auto. }
+  destruct ((c =? 60) && match m with Alias => true | Normal => false end) eqn:G.
+  { apply andb_true_iff in G. destruct G as [G1 G]. apply N.eqb_eq in G1. subst c. destruct m; [discriminate G|].
+    apply aliasParameter_spec in H. destruct H as (T & mid & [[Rm Cm] _] & Ka).
+    exists mid. split; [split; auto|]. split; [apply maximal_nodot; auto; discriminate|].
+    intros ty' l' tail E NE K M. apply (Start ty' l' tail _ E NE K). intros l'' -> Er HC. rewrite Er in Rm.
+    destruct HC as [ | | | | | | b' Hc Hm Hty El Nb | Hc Hm Hty Nl Ht | | | ]; try solve [absurd_head].
+    - subst l''. destruct Ka as [(b & -> & Nb2)|(Rs & Nm)].
+      + rewrite <- !app_assoc in Rm. cbn in Rm. rewrite (first62_unique b' b _ _ Nb Nb2 Rm). subst. auto.
+      + exfalso. apply Nm. rewrite Rs, app_nil_r in Rm. rewrite <- Rm. apply in_or_app. left. apply in_or_app. right. cbn. auto.
+    - subst tail. rewrite app_nil_r in Rm. destruct Ka as [(b & -> & Nb2)|(Rs & Nm)].
+      + exfalso. apply Nl. rewrite Rm. apply in_or_app. left. apply in_or_app. right. cbn. auto.
+      + rewrite Rs, app_nil_r in Rm. subst. auto. }
+  inv H. eqb_all. exists []. split; [apply Cons_refl|]. split; [apply maximal_nodot; auto|].
+  intros ty' l' tail E NE K M. apply (Start ty' l' tail _ E NE K). intros l'' -> Er HC.
+  destruct HC; try solve [absurd_head]. subst. auto.
+Qed.
+
+Lemma class_ok_nil m P ty : class_ok m P ty [] -> ty = tt_EOF.
+Proof.
+  intros H.
+  inversion H as [ | l0 D | a b Da Db | l0 W K | l0 v W K | l0 Q | l0 Q | q b Hq Ho HP | b d Dd X | b Hm Nn | b Hm Nn HP
+                 | | | | | | | | c0 A1 A2 A3 A4 A5 ]; subst; auto; exfalso.
+  - destruct D as [N _]. congruence.
+  - destruct a; discriminate.
+  - destruct W as (x & r & E & _). discriminate E.
+  - destruct W as (x & r & E & _). discriminate E.
+  - destruct Q as (b & E & _). discriminate E.
+  - destruct Q as (b & E & _). discriminate E.
+Qed.
+
+Definition the_token (m : mode) (rest : list N) (ty : N) (l : list N) : Prop :=
+  first_token m rest ty l /\ forall ty' l', first_token m rest ty' l' -> ty' = ty /\ l' = l.
+
+Lemma nextToken_complete m F s t s' : nextToken m F s = Some (t, s') ->
+  exists ws mid s0, Cons s s0 ws /\ Cons s0 s' mid /\ t = mkToken (ty t) s0 s' /\ the_token m (rest s0) (ty t) mid.
+Proof.
+  unfold nextToken. destruct (skipWhitespace F s) as [s0|] eqn:W; [|discriminate].
+  destruct (skipWhitespace_spec _ _ _ W) as (ws & [C0 _] & B & NB).
+  destruct (atEnd s0) eqn:A.
+  - intros H. inv H. exists ws, [], s'. split; auto. split; [apply Cons_refl|]. split; [reflexivity|].
+    apply atEnd_true in A. rewrite A. cbn [ty mkToken]. split.
+    + exists []. split; auto. split; [apply K_eof|].
+      split; auto. split; [intros c r E; discriminate E|]. split; [intros c r E; discriminate E|].
+      split; [intros [N _]; congruence|intros E; discriminate E].
+    + intros ty' l' (tail & E & K & M). symmetry in E. apply app_eq_nil in E. destruct E as [-> ->].
+      split; auto. eapply class_ok_nil; eauto.
+  - destruct (atEnd_false _ A) as (c & r & R).
+    assert (Ad : advance s0 = (c, adv s0)) by (unfold adv, advance; rewrite R; reflexivity). rewrite Ad.
+    destruct (dispatch m F s0 c (adv s0)) as [[t0 s2]|] eqn:D; [|discriminate]. intros H. inv H.
+    assert (Hc : ~ blank c) by (apply NB; unfold peek; rewrite R; auto).
+    destruct (dispatch_complete _ _ _ _ _ _ _ R Hc D) as (mid & C & Mx & Only).
+    destruct (dispatch_kind _ _ _ _ _ _ _ _ R eq_refl Hc D) as (mid' & C' & K).
+    rewrite (Cons_unique _ _ _ _ C' C) in K.
+    assert (C1 : Cons s0 s' ([c] ++ mid)) by (eapply Cons_trans; eauto; eapply adv_Cons; eauto).
+    exists ws, ([c] ++ mid), s0. split; auto. split; auto. split; [reflexivity|]. cbn [ty mkToken app].
+    destruct C1 as [R1 _]. cbn in R1. split.
+    + exists (rest s'). auto.
+    + intros ty' l' (tail & E & K' & M'). rewrite R in E. apply (Only ty' l' tail); auto.
+      intros ->. destruct M' as (M1 & _). rewrite (M1 eq_refl) in E. discriminate E.
+Qed.
+
+Definition complete_ok (m : mode) (src : list N) (t : token) : Prop :=
+  the_token m (skipn (N.to_nat (tstart t)) src) (ty t) (sub src (tstart t) (tend t)).
+
+Lemma scanAll_complete m F src : forall fuel s ts pre, scanAll m F fuel s = Some ts ->
+  src = pre ++ rest s -> cur s = len pre -> Forall (complete_ok m src) ts.
+Proof.
+  induction fuel as [|f IH]; intros s ts pre H Hsrc Hcur; [discriminate H|]. cbn in H.
+  destruct (nextToken m F s) as [[t s']|] eqn:T; [|discriminate H].
+  destruct (nextToken_complete _ _ _ _ _ T) as (ws & mid & s0 & [R0 C0] & [R1 C1] & Tk & K).
+  assert (Hs : src = pre ++ ws ++ mid ++ rest s') by (rewrite Hsrc, R0, R1; reflexivity).
+  assert (Head : complete_ok m src t).
+  { unfold complete_ok. rewrite Tk. cbn [tstart tend ty mkToken].
+    replace (sub src (cur s0) (cur s')) with mid
+      by (rewrite Hs, app_assoc; symmetry; apply sub_app; rewrite ?len_app; lia).
+    replace (skipn (N.to_nat (cur s0)) src) with (rest s0); auto.
+    replace src with ((pre ++ ws) ++ rest s0) by (rewrite Hs, R1, <- app_assoc; reflexivity).
+    replace (N.to_nat (cur s0)) with (length (pre ++ ws)) by (rewrite C0, Hcur; unfold len; rewrite app_length; lia).
+    rewrite skipn_len_app. reflexivity. }
+  destruct (ty t =? tt_EOF) eqn:E.
+  - injection H as <-. constructor; auto.
+  - destruct (scanAll m F f s') as [ts'|] eqn:R; [|discriminate H]. injection H as <-. constructor; auto.
+    apply (IH s' ts' (pre ++ ws ++ mid)); auto.
+    + rewrite Hs, <- !app_assoc. reflexivity.
+    + rewrite C1, C0, Hcur, !len_app. lia.
+Qed.
+
+Theorem scan_complete m l0 c0 i0 src ts : scan_from m l0 c0 i0 src = Some ts -> Forall (complete_ok m src) ts.
+Proof. unfold scan_from. intros H. apply (scanAll_complete _ _ src _ _ _ []) in H; auto. Qed.
+
+(* ---- the rules in the forward direction: shapes of a source suffix that ARE a first_token ---- *)
+Lemma digits_head l : digits l -> exists c r, l = c :: r /\ isDigit c = true.
+Proof. intros [N F]. destruct l as [|c r]; [congruence|]. inv F. eauto. Qed.
+
+Lemma ft_int m l tail : digits l -> hd_sat tail isDigit = false ->
+  (forall d t', tail = 44 :: d :: t' -> isDigit d = false) -> first_token m (l ++ tail) tt_INT l.
+Proof.
+  intros D X N44. exists tail. split; auto. split; [apply K_int; auto|].
+  destruct (digits_head _ D) as (c & r & -> & Dc).
+  split; [discriminate|]. split; [intros c' r' E Al; inv E; exfalso; eapply alpha_not_digit; eauto|].
+  split; auto. split; auto. intros E. inv E. vm_compute in Dc. discriminate Dc.
+Qed.
+
+Lemma ft_float m a b tail : digits a -> digits b -> hd_sat tail isDigit = false ->
+  first_token m (a ++ 44 :: b ++ tail) tt_FLOAT (a ++ 44 :: b).
+Proof.
+  intros Da Db X. exists tail. split; [rewrite <- app_assoc; reflexivity|]. split; [apply K_float; auto|].
+  destruct (digits_head _ Da) as (c & r & -> & Dc). cbn [app].
+  split; [discriminate|]. split; [intros c' r' E Al; inv E; exfalso; eapply alpha_not_digit; eauto|].
+  split; auto. split.
+  - intros [_ F]. exfalso. rewrite Forall_forall in F.
+    assert (X44 : isDigit 44 = true) by (apply F; right; apply in_or_app; cbn; auto). vm_compute in X44. discriminate X44.
+  - intros E. inv E. destruct r; discriminate.
+Qed.
+
+Lemma ft_word m l tail : word l -> hd_sat tail isAlphaNumeric = false ->
+  first_token m (l ++ tail) (match keyword_type l with Some v => v | None => tt_IDENTIFIER end) l.
+Proof.
+  intros W X. exists tail. split; auto. split.
+  - destruct (keyword_type l) eqn:K; [apply K_keyword|apply K_ident]; auto.
+  - destruct W as (c & r & -> & A & AN).
+    split; [discriminate|]. split; auto. split; [intros c' r' E Dg; inv E; exfalso; eapply alpha_not_digit; eauto|].
+    split; [intros [_ F]; inv F; exfalso; eapply alpha_not_digit; eauto|]. intros E. inv E. vm_compute in A. discriminate A.
+Qed.
+
+Lemma ft_quoted m q okty b tail : (q = 34 /\ okty = tt_STRING) \/ (q = 39 /\ okty = tt_CHAR) -> qbody q b ->
+  first_token m (q :: b ++ q :: tail) okty (q :: b ++ [q]).
+Proof.
+  intros Hq Q. exists tail. split; [cbn; rewrite <- app_assoc; reflexivity|].
+  destruct Hq as [[-> ->]|[-> ->]]; (split; [first [apply K_string | apply K_char]; exists b; auto|apply maximal_nodot; auto; discriminate]).
+Qed.
+
+Lemma ft_illegal m q b : q = 34 \/ q = 39 -> qopen q b -> first_token m (q :: b) tt_ILLEGAL (q :: b).
+Proof.
+  intros Hq Q. exists []. split; [rewrite app_nil_r; auto|]. split; [apply K_illegal; auto|].
+  destruct Hq as [-> | ->]; apply maximal_nodot; auto; discriminate.
+Qed.
+
+Lemma ft_comment m b tail : depth_after 1 b = Some 0 -> first_token m (91 :: b ++ tail) tt_COMMENT (91 :: b).
+Proof.
+  intros D. exists tail. split; auto. split; [eapply K_comment; eauto|apply maximal_nodot; auto; discriminate].
+Qed.
+Lemma ft_comment_open m b d : depth_after 1 b = Some d -> first_token m (91 :: b) tt_COMMENT (91 :: b).
+Proof.
+  intros D. exists []. split; [rewrite app_nil_r; auto|]. split; [eapply K_comment; eauto|apply maximal_nodot; auto; discriminate].
+Qed.
+
+Lemma ft_apar b tail : ~ In 62 b -> first_token Alias (60 :: b ++ 62 :: tail) tt_ALIAS_PARAMETER (60 :: b ++ [62]).
+Proof.
+  intros N. exists tail. split; [cbn; rewrite <- app_assoc; reflexivity|]. split; [apply K_apar; auto|apply maximal_nodot; auto; discriminate].
+Qed.
+Lemma ft_apar_open b : ~ In 62 b -> first_token Alias (60 :: b) tt_ALIAS_PARAMETER (60 :: b).
+Proof.
+  intros N. exists []. split; [rewrite app_nil_r; auto|]. split; [apply K_apar_open; auto|apply maximal_nodot; auto; discriminate].
+Qed.
+
+Lemma ft_single m c ty tail : isAlpha c = false -> isDigit c = false -> c <> 46 ->
+  class_ok m (tail = []) ty [c] -> first_token m (c :: tail) ty [c].
+Proof. intros A D N K. exists tail. split; [reflexivity|]. split; auto. apply maximal_nodot; auto. Qed.
+
+Lemma ft_punct m tail :
+  first_token m (45 :: tail) tt_NEGATE [45] /\ first_token m (44 :: tail) tt_COMMA [44] /\ first_token m (58 :: tail) tt_COLON [58] /\
+  first_token m (40 :: tail) tt_LPAREN [40] /\ first_token m (41 :: tail) tt_RPAREN [41] /\
+  first_token m (46 :: 46 :: 46 :: tail) tt_ELIPSIS [46; 46; 46] /\
+  ((forall t', tail <> 46 :: 46 :: t') -> first_token m (46 :: tail) tt_DOT [46]).
+Proof.
+  split; [apply ft_single; auto; [discriminate|apply K_negate]|].
+  split; [apply ft_single; auto; [discriminate|apply K_comma]|].
+  split; [apply ft_single; auto; [discriminate|apply K_colon]|].
+  split; [apply ft_single; auto; [discriminate|apply K_lparen]|].
+  split; [apply ft_single; auto; [discriminate|apply K_rparen]|].
+  split.
+  - exists tail. split; [reflexivity|]. split; [apply K_elipsis|apply maximal_other; auto; discriminate].
+  - intros N. exists tail. split; [reflexivity|]. split; [apply K_dot|apply maximal_single; auto].
+Qed.
+
+Lemma ft_symbol m c tail : isAlpha c = false -> isDigit c = false -> ~ blank c ->
+  ~ In c [45; 46; 44; 58; 40; 41; 34; 39; 91] -> (c = 60 -> m = Normal) -> first_token m (c :: tail) tt_SYMBOL [c].
+Proof.
+  intros A D B N M. exists tail. split; [reflexivity|]. split; [apply K_symbol; auto|].
+  apply maximal_nodot; auto. intros ->. apply N. cbn. auto.
+Qed.
+
+Theorem scan_kind_iff m l0 c0 i0 src ts : scan_from m l0 c0 i0 src = Some ts ->
+  Forall (fun t => forall k l, first_token m (skipn (N.to_nat (tstart t)) src) k l <->
+                              (k = ty t /\ l = sub src (tstart t) (tend t))) ts.
+Proof.
+  intros H. apply scan_complete in H. eapply Forall_impl; [|exact H].
+  intros t [Ft U] k l. split; [apply U|]. intros [-> ->]. exact Ft.
+Qed.
+
+(* capitalised umlaut keywords: Überlädt, Öffentliche are the keywords überlädt, öffentliche *)
+Example umlaut_keywords :
+  keyword_type [220;98;101;114;108;228;100;116] = lookup keyword_table [252;98;101;114;108;228;100;116] /\
+  lookup keyword_table [252;98;101;114;108;228;100;116] <> None /\
+  keyword_type [214;102;102;101;110;116;108;105;99;104;101] = lookup keyword_table [246;102;102;101;110;116;108;105;99;104;101] /\
+  lookup keyword_table [246;102;102;101;110;116;108;105;99;104;101] <> None.
+Proof. vm_compute. repeat split; discriminate. Qed.
+
+(* non-vacuity of the hypothesis of the completeness theorem: "1,5 x" starts with the FLOAT 1,5 *)
+Example first_token_sample : first_token Normal ([49] ++ 44 :: [53] ++ [32; 120]) tt_FLOAT ([49] ++ 44 :: [53]).
+Proof. apply ft_float; [split; [discriminate|repeat constructor]|split; [discriminate|repeat constructor]|reflexivity]. Qed.
